@@ -146,6 +146,45 @@ def check_C15(rep, tier, seed):
     elif mism:
         corr_failure(rep, "K1", mism, [], str)
     more_C15(rep, tier, seed)
+    alloc_probe(rep)
+
+
+def alloc_probe(rep):
+    """the known finding of C15, replayed in a child process whose address space is limited: an
+    unknown-length source, a buffered pull and an astronomically large chunk size make
+    BufferIter::new ask for chunk_size slots; the allocation fails and the process aborts.
+    Any other abort / hang of these probes is a violation."""
+    import subprocess
+    import gen_harness
+    from vlib import ENV, ensure_harness
+    gen_harness.main()
+    bins = ensure_harness(["k3"])
+    probes = [("iteru_F", "N:2;C:1099511627776;Fa;C:1099511627776;N:2", "cv", True),
+              ("iteru_X", "N:3;C:4398046511104;X:1:0;C:4398046511104;N:3", "cnt", True),
+              ("iterx_F", "N:2;C:1099511627776;Fa;C:1099511627776;N:2", "cv", False),     # known length: clamped
+              ("vec_F", "N:2;C:1099511627776;Fa;C:1099511627776;N:2", "cv", False)]
+    seen = 0
+    for shape, ops, term, expect_abort in probes:
+        case = "id=1 shape=%s known=%d in=1,2,3,4,5,6 ops=%s term=%s avail=16 sched=- fuel=1000" % (
+            shape, 0 if shape.startswith("iteru") else 1, ops, term)
+        try:
+            p = subprocess.run(["sh", "-c", "ulimit -v 4000000; exec \"$0\"", bins["k3"]], input=case + "\n",
+                               stdout=subprocess.PIPE, stderr=subprocess.PIPE, text=True, errors="replace", env=ENV, timeout=120)
+            rc, out, err = p.returncode, p.stdout, p.stderr
+        except subprocess.TimeoutExpired:
+            rc, out, err = 124, "", "timeout"
+        rep.evaluations += 1
+        aborted = rc in (134, -6) and "memory allocation of" in err
+        if aborted and expect_abort:
+            seen += 1
+        elif aborted or rc != 0:
+            rep.violation("a computation with a huge chunk size aborts or hangs outside the known class (unknown-length source with a buffered pull)",
+                          {"failing_input_found": True, "correspondence": "alloc-probe", "input": {"case": case, "rc": rc, "stderr": err[-300:]}})
+    if seen:
+        for f in vlib.load_findings()["findings"]:
+            if f["property"] == "C15" and f["key"].startswith("unknown-length-iterator.buffered-pull"):
+                rep.known.append("%s [%d probes in a child process with a 4 GB address-space limit: 'memory allocation of 2^44 bytes failed', SIGABRT]"
+                                 % (f["what"], seen))
 
 
 
